@@ -89,13 +89,25 @@ def _ren(c, under):
     c = dict(c)
     if c.get('f') in ('a', 'b'):
         c['f'] = '_' + c['f']
+    if c.get('k') == 'static':
+        c['under'] = True
     if 'cs' in c:
         c['cs'] = [_ren(x, under) for x in c['cs']]
     return c
 
 
+STATIC = {'colcol': 'a = b', 'lit': "a = 'a'"}
+
+
+def _static_text(c, under):
+    t = STATIC[c['form']]
+    return t.replace('a =', '_a =').replace('= b', '= _b') if under else t
+
+
 def _simple(c, variant):
     k = c['k']
+    if k == 'static':
+        return _static_text(c, c.get('under', False))
     if k == 'cmp':
         v = _val(c['v'])
         if c['op'] == '=' and variant % 2:
@@ -129,6 +141,8 @@ def _shape(c):
         return (k, c['f'], c['v']['t'] == 'null')
     if k == 'or':
         return (k, tuple(_shape(x) for x in c['cs']))
+    if k == 'static':
+        return (k, c['form'])
     if k == 'like':
         return (k, c['f'], c['neg'])
     return (k, c.get('f'), c.get('neg'))
@@ -182,6 +196,19 @@ def run_case(job):
     if got != want:
         return 'rows %s, three-valued logic selects %s (args %r %r; sql %r)' % (got, want, args, kwargs, conn.log[-1]), None
     sql, params = conn.log[-1]
+    # static conditions go into the statement as they are: exactly as written, once each
+    def statics(cs):
+        for c in cs:
+            if c['k'] == 'static':
+                yield _static_text(c, under)
+            elif c['k'] == 'or':
+                yield from statics(c['cs'])
+    skeleton = sql
+    for t in statics(case['conds']):
+        if t not in skeleton:
+            return 'the static condition %r does not appear in the statement as written (sql %r)' % (t, sql), None
+        skeleton = skeleton.replace(t, ' FALSE ', 1)
+    sql_full, sql = sql, skeleton
     rest = _TOK.sub('', sql)
     words = set(re.findall(r'[A-Za-z_][A-Za-z_0-9.]*', sql.replace('%s', ' '))) - _WORDS
     if rest or words:
